@@ -93,6 +93,9 @@ def inst_from_library(instance):
     }
 
 
+_KEPT_DECODED = []      # schedules decoded earlier in this process and still alive
+
+
 class Hooks:
     def start(self, run): pass
     def reset(self, run): pass
@@ -479,6 +482,8 @@ def run_consumer(ctx, case, hooks: Hooks):
         if schedule_triples(S2) != run2.r.triples():
             hooks.decoded_schedule_differs(schedule_triples(S2), run2.r.triples(), "second decode")
         S3 = Schedule.from_dict(**run.d.schedule.to_dict())
+        _KEPT_DECODED.append(S3)         # earlier results stay referenced by their owner
+        del _KEPT_DECODED[:-300]
         if schedule_triples(S3) != run.r.triples():
             hooks.decoded_schedule_differs(schedule_triples(S3), run.r.triples(), "from_dict(**to_dict())")
     elif kind == "frames":
